@@ -38,6 +38,8 @@ def tname(t) -> str:
         return "(Z * Z * option Z)"
     if t == "Q":
         return "Q"
+    if t == "OQ":
+        return "option Q"
     if isinstance(t, tuple) and t[0] == "T":
         return "(" + " * ".join(tname(x) for x in t[1:]) + ")"
     raise ValueError(t)
@@ -60,19 +62,60 @@ class Ctx:
     counter: list = field(default_factory=lambda: [0])
     raises: bool = False
     ret: object = None
+    divs: list = field(default_factory=list)   # divisors (coq text) met while translating the current statement
 
     def fresh(self, base):
         self.counter[0] += 1
         return f"{base}_{self.counter[0]}"
 
     def child(self, **upd):
-        c = Ctx(self.where, self.fns, dict(self.env), self.counter, self.raises, self.ret)
+        c = Ctx(self.where, self.fns, dict(self.env), self.counter, self.raises, self.ret, self.divs)
         c.env.update(upd)
         return c
 
 
 def refuse(ctx, node, msg):
     raise Refused(f"{ctx.where}:{getattr(node, 'lineno', '?')}", f"{msg}: {ast.dump(node)[:120]}")
+
+
+def coerce(ctx, node, v, t, want):
+    """implicit int -> float promotion"""
+    if t == want:
+        return v
+    if t == "Z" and want == "Q":
+        return f"(inject_Z {v})"
+    if t == "Q" and want == "OQ":
+        return f"(Some {v})"
+    if t == "OZ" and want == "OQ" and v == "None":
+        return "None"
+    if isinstance(t, tuple) and isinstance(want, tuple) and t[0] == want[0] == "T" and len(t) == len(want):
+        if all(a == b or (a == "Z" and b == "Q") for a, b in zip(t[1:], want[1:])):
+            parts = [coerce(ctx, node, proj(v, i, len(t) - 1), a, b) for i, (a, b) in enumerate(zip(t[1:], want[1:]))]
+            return mk_tuple(parts)
+    refuse(ctx, node, f"value of type {t} where {want} is expected")
+
+
+def mk_tuple(parts):
+    out = parts[0]
+    for p in parts[1:]:
+        out = f"({out}, {p})"
+    return out
+
+
+def proj(v, i, n):
+    """i-th component of an n-tuple encoded as left-nested pairs"""
+    out = v
+    for _ in range(n - 1 - i):
+        out = f"(fst {out})"
+    return out if i == 0 else f"(snd {out})"
+
+
+def arith(ctx, node, l, lt, r, rt):
+    if lt == "Z" and rt == "Z":
+        return l, r, "Z"
+    if lt in ("Z", "Q") and rt in ("Z", "Q"):
+        return coerce(ctx, node, l, lt, "Q"), coerce(ctx, node, r, rt, "Q"), "Q"
+    refuse(ctx, node, f"arithmetic on {lt},{rt}")
 
 
 # ------------------------------------------------------------------ expressions
@@ -84,8 +127,12 @@ def expr(ctx: Ctx, e) -> tuple[str, object]:
             return ("true" if e.value else "false"), "B"
         if isinstance(e.value, int):
             return f"({e.value})", "Z"
-        if isinstance(e.value, float) and e.value == 0.5:
-            return "(1 # 2)%Q", "Q"
+        if isinstance(e.value, float):
+            from fractions import Fraction
+            fr = Fraction(e.value)     # the exact binary64 value
+            if fr.denominator > 2 ** 64 or e.value != e.value or e.value in (float("inf"), float("-inf")):
+                refuse(ctx, e, "float constant")
+            return f"({fr.numerator} # {fr.denominator})%Q", "Q"
         refuse(ctx, e, "constant")
     if isinstance(e, ast.Name):
         b = ctx.env.get(e.id)
@@ -93,6 +140,8 @@ def expr(ctx: Ctx, e) -> tuple[str, object]:
             refuse(ctx, e, "unbound name")
         if b[0] == "v":
             return b[1], b[2]
+        if b[0] == "k":
+            return f"({b[1]})", "Z"
         refuse(ctx, e, "slice object used as a value")
     if isinstance(e, ast.Attribute) and isinstance(e.value, ast.Name) and e.attr in ("start", "stop", "step"):
         b = ctx.env.get(e.value.id)
@@ -105,14 +154,33 @@ def expr(ctx: Ctx, e) -> tuple[str, object]:
             v = b[1]
             return [f"(fst (fst {v}))", f"(snd (fst {v}))", f"(snd {v})"][i], ["Z", "Z", "OZ"][i]
         refuse(ctx, e, "attribute of a non-slice")
+    if isinstance(e, ast.Subscript):
+        v, t = expr(ctx, e.value)
+        idx = e.slice
+        k = None
+        if isinstance(idx, ast.Constant) and isinstance(idx.value, int):
+            k = idx.value
+        elif isinstance(idx, ast.Name) and ctx.env.get(idx.id, ("",))[0] == "k":
+            k = ctx.env[idx.id][1]
+        if k is None or not (isinstance(t, tuple) and t[0] == "T") or not 0 <= k < len(t) - 1:
+            refuse(ctx, e, "subscript")
+        return proj(v, k, len(t) - 1), t[1 + k]
     if isinstance(e, ast.BinOp):
         l, lt = expr(ctx, e.left)
         r, rt = expr(ctx, e.right)
-        if lt == "Z" and rt == "Q" and isinstance(e.op, ast.Mult):
-            return f"(inject_Z {l} * {r})%Q", "Q"
+        if isinstance(e.op, ast.Div):
+            l, r, t = arith(ctx, e, l, lt, r, rt)
+            if t != "Q":
+                l, r = f"(inject_Z {l})", f"(inject_Z {r})"
+            ctx.divs.append(r)
+            return f"({l} / {r})%Q", "Q"
+        if isinstance(e.op, (ast.Add, ast.Sub, ast.Mult)):
+            l, r, t = arith(ctx, e, l, lt, r, rt)
+            op = {ast.Add: "+", ast.Sub: "-", ast.Mult: "*"}[type(e.op)]
+            return (f"({l} {op} {r})", "Z") if t == "Z" else (f"({l} {op} {r})%Q", "Q")
         if lt != "Z" or rt != "Z":
-            refuse(ctx, e, f"arithmetic on {lt},{rt}")
-        ops = {ast.Add: "+", ast.Sub: "-", ast.Mult: "*", ast.FloorDiv: "/", ast.Mod: "mod"}
+            refuse(ctx, e, f"integer operator on {lt},{rt}")
+        ops = {ast.FloorDiv: "/", ast.Mod: "mod"}
         if type(e.op) in ops:
             return f"({l} {ops[type(e.op)]} {r})", "Z"
         if isinstance(e.op, ast.LShift):
@@ -122,6 +190,8 @@ def expr(ctx: Ctx, e) -> tuple[str, object]:
         v, t = expr(ctx, e.operand)
         if isinstance(e.op, ast.USub) and t == "Z":
             return f"(- {v})", "Z"
+        if isinstance(e.op, ast.USub) and t == "Q":
+            return f"(- {v})%Q", "Q"
         if isinstance(e.op, ast.Not) and t == "B":
             return f"(negb {v})", "B"
         refuse(ctx, e, "unary")
@@ -141,7 +211,7 @@ def expr(ctx: Ctx, e) -> tuple[str, object]:
         op, rhs = e.ops[0], e.comparators[0]
         if isinstance(op, (ast.Is, ast.IsNot)) and isinstance(rhs, ast.Constant) and rhs.value is None:
             v, t = expr(ctx, e.left)
-            if t != "OZ":
+            if t not in ("OZ", "OQ"):
                 refuse(ctx, e, "`is None` on a non-optional")
             yes, no = ("true", "false") if isinstance(op, ast.Is) else ("false", "true")
             return f"(match {v} with None => {yes} | Some _ => {no} end)", "B"
@@ -160,6 +230,13 @@ def expr(ctx: Ctx, e) -> tuple[str, object]:
             refuse(ctx, e, "`in`")
         l, lt = expr(ctx, e.left)
         r, rt = expr(ctx, rhs)
+        if "Q" in (lt, rt):
+            l, r, _ = arith(ctx, e, l, lt, r, rt)
+            qops = {ast.Lt: f"(Qltb {l} {r})", ast.LtE: f"(Qle_bool {l} {r})", ast.Gt: f"(Qltb {r} {l})",
+                    ast.GtE: f"(Qle_bool {r} {l})", ast.Eq: f"(Qeq_bool {l} {r})", ast.NotEq: f"(negb (Qeq_bool {l} {r}))"}
+            if type(op) in qops:
+                return qops[type(op)], "B"
+            refuse(ctx, e, "comparison")
         if lt != "Z" or rt != "Z":
             refuse(ctx, e, f"comparison of {lt},{rt}")
         ops = {ast.Lt: "<?", ast.LtE: "<=?", ast.Gt: ">?", ast.GtE: ">=?", ast.Eq: "=?"}
@@ -173,7 +250,7 @@ def expr(ctx: Ctx, e) -> tuple[str, object]:
         if nn is not None:
             var, coqv, is_none = nn
             y = ctx.fresh(var)
-            c_some = ctx.child(**{var: ("v", y, "Z")})
+            c_some = ctx.child(**{var: ("v", y, opt_base(ctx, var))})
             a, at = expr(ctx if is_none else c_some, e.body)
             b, bt = expr(c_some if is_none else ctx, e.orelse)
             if at != bt:
@@ -181,8 +258,14 @@ def expr(ctx: Ctx, e) -> tuple[str, object]:
             n_br, s_br = (a, b) if is_none else (b, a)
             return f"(match {coqv} with None => {n_br} | Some {y} => {s_br} end)", at
         c, ct = expr(ctx, e.test)
+        nd = len(ctx.divs)
         a, at = expr(ctx, e.body)
         b, bt = expr(ctx, e.orelse)
+        if len(ctx.divs) != nd:
+            refuse(ctx, e, "division inside a conditional expression")
+        if at != bt and {at, bt} == {"Z", "Q"}:
+            a, b, at = coerce(ctx, e, a, at, "Q"), coerce(ctx, e, b, bt, "Q"), "Q"
+            bt = "Q"
         if ct != "B" or at != bt:
             refuse(ctx, e, "conditional expression")
         return f"(if {c} then {a} else {b})", at
@@ -200,9 +283,13 @@ def none_test(ctx, test):
             and isinstance(test.comparators[0], ast.Constant) and test.comparators[0].value is None
             and isinstance(test.left, ast.Name)):
         b = ctx.env.get(test.left.id)
-        if b and b[0] == "v" and b[2] == "OZ":
+        if b and b[0] == "v" and b[2] in ("OZ", "OQ"):
             return test.left.id, b[1], isinstance(test.ops[0], ast.Is)
     return None
+
+
+def opt_base(ctx, name):
+    return "Q" if ctx.env[name][2] == "OQ" else "Z"
 
 
 def call(ctx, e) -> tuple[str, object]:
@@ -213,16 +300,33 @@ def call(ctx, e) -> tuple[str, object]:
         if t != "Z":
             refuse(ctx, e, "bit_length of non-int")
         return f"(py_bit_length {v})", "Z"
-    if not isinstance(e.func, ast.Name):
+    if isinstance(e.func, ast.Attribute) and isinstance(e.func.value, ast.Name) and e.func.value.id == "math":
+        f = e.func.attr
+    elif isinstance(e.func, ast.Name):
+        f = e.func.id
+    else:
         refuse(ctx, e, "call target")
-    f = e.func.id
     args = [expr(ctx, a) for a in e.args]
     if f in ("min", "max") and len(args) == 2 and all(t == "Z" for _, t in args):
         return f"(Z.{f} {args[0][0]} {args[1][0]})", "Z"
+    if f in ("min", "max") and len(args) == 2 and all(t in ("Z", "Q") for _, t in args):
+        a, b, _ = arith(ctx, e, args[0][0], args[0][1], args[1][0], args[1][1])
+        return f"(py_{f}q {a} {b})", "Q"
     if f == "int" and len(args) == 1 and args[0][1] == "Z":
         return args[0]
+    if f == "int" and len(args) == 1 and args[0][1] == "Q":
+        return f"(py_trunc {args[0][0]})", "Z"
     if f == "abs" and len(args) == 1 and args[0][1] == "Z":
         return f"(Z.abs {args[0][0]})", "Z"
+    if f == "abs" and len(args) == 1 and args[0][1] == "Q":
+        return f"(Qabs {args[0][0]})", "Q"
+    if f in ("floor", "ceil") and len(args) == 1 and args[0][1] in ("Z", "Q"):
+        v = coerce(ctx, e, args[0][0], args[0][1], "Q")
+        return f"({'Qfloor' if f == 'floor' else 'Qceiling'} {v})", "Z"
+    if f == "isfinite" and len(args) == 1 and args[0][1] in ("Z", "Q"):
+        return "true", "B"          # the rational model has no non-finite values
+    if f == "fmod" and len(args) == 2 and args[0][1] == "Q" and isinstance(e.args[1], ast.Constant) and e.args[1].value in (1, 1.0):
+        return f"(py_fmod1 {args[0][0]})", "Q"
     if f == "slice" and len(args) in (2, 3):
         if args[0][1] != "Z" or args[1][1] != "Z":
             refuse(ctx, e, "slice() of non-int bounds")
@@ -245,9 +349,7 @@ def apply_fn(ctx, node, fn: Fn, args):
         refuse(ctx, node, f"arity of {fn.gname}")
     out = []
     for (v, t), (_, pt) in zip(args, fn.params):
-        if t != pt:
-            refuse(ctx, node, f"argument of type {t} for parameter of type {pt}")
-        out.append(v)
+        out.append(coerce(ctx, node, v, t, pt))
     return "(" + " ".join([fn.gname] + out) + ")"
 
 
@@ -263,6 +365,29 @@ def ss_arg(ctx, a):
 # ------------------------------------------------------------------ statements (continuation style)
 def ret_wrap(ctx, v):
     return f"Ok {v}" if ctx.raises else v
+
+
+def guarded(ctx, node, divs, k: str) -> str:
+    """Python raises ZeroDivisionError when a divisor is 0 (Coq's Q division is total): guard each divisor."""
+    if divs and not ctx.raises:
+        refuse(ctx, node, "division in a function declared total")
+    for d in reversed(divs):
+        k = f"(if Qeq_bool {d} 0 then Err EOther else {k})"
+    return k
+
+
+def expr_g(ctx, e):
+    """expr + the divisors met while translating it"""
+    n = len(ctx.divs)
+    v, t = expr(ctx, e)
+    d = ctx.divs[n:]
+    del ctx.divs[n:]
+    return v, t, d
+
+
+def is_raising_call(ctx, v):
+    return (isinstance(v, ast.Call) and isinstance(v.func, ast.Name) and v.func.id in ctx.fns
+            and ctx.fns[v.func.id].raises)
 
 
 def stmts(ctx: Ctx, body: list, node=None) -> str:
@@ -281,10 +406,9 @@ def stmts(ctx: Ctx, body: list, node=None) -> str:
             if not ctx.raises or fn.ret != ctx.ret:
                 refuse(ctx, s, "return of a raising call")
             return call_raising(ctx, s.value, fn)
-        v, t = expr(ctx, s.value)
-        if t != ctx.ret:
-            refuse(ctx, s, f"returns {t}, declared {ctx.ret}")
-        return ret_wrap(ctx, v)
+        v, t, dv = expr_g(ctx, s.value)
+        v = coerce(ctx, s, v, t, ctx.ret)
+        return guarded(ctx, s, dv, ret_wrap(ctx, v))
     if isinstance(s, ast.Raise):
         if not ctx.raises:
             refuse(ctx, s, "raise in a function declared total")
@@ -296,10 +420,27 @@ def stmts(ctx: Ctx, body: list, node=None) -> str:
     if isinstance(s, ast.Assert):
         if not ctx.raises:
             refuse(ctx, s, "assert in a function declared total")
-        c, t = expr(ctx, s.test)
+        # assert (x is None) or COND   with x optional
+        tst = s.test
+        if isinstance(tst, ast.BoolOp) and isinstance(tst.op, ast.Or) and len(tst.values) == 2:
+            nn = none_test(ctx, tst.values[0])
+            if nn is not None and nn[2]:
+                var, coqv, _ = nn
+                y = ctx.fresh(var)
+                c_some = ctx.child(**{var: ("v", y, opt_base(ctx, var))})
+                c, t, dv = expr_g(c_some, tst.values[1])
+                if t != "B" or dv:
+                    refuse(ctx, s, "assert")
+                # the narrowing does not survive the assert: continue with the optional variable
+                k = stmts(ctx, rest, s)
+                return f"(match {coqv} with None => {k} | Some {y} => (if {c} then {k} else Err (EAssert 0)) end)"
+        c, t, dv = expr_g(ctx, s.test)
         if t != "B":
             refuse(ctx, s, "assert of non-bool")
-        return f"(if {c} then {stmts(ctx, rest, s)} else Err (EAssert {s.lineno}))"
+        return guarded(ctx, s, dv, f"(if {c} then {stmts(ctx, rest, s)} else Err (EAssert 0))")
+    if isinstance(s, ast.AugAssign) and isinstance(s.target, ast.Name) and isinstance(s.op, (ast.Add, ast.Sub, ast.Mult)):
+        return stmts(ctx, [ast.copy_location(ast.Assign([ast.Name(s.target.id, ast.Store())],
+                                                        ast.BinOp(ast.Name(s.target.id, ast.Load()), s.op, s.value)), s)] + rest, s)
     if isinstance(s, ast.Assign) and len(s.targets) == 1:
         tgt = s.targets[0]
         if isinstance(tgt, ast.Name):
@@ -317,14 +458,40 @@ def stmts(ctx: Ctx, body: list, node=None) -> str:
                 fn = ctx.fns[s.value.func.id]
                 v = call_total(ctx, s.value, fn)
                 t = fn.ret
+                dv = []
             else:
-                v, t = expr(ctx, s.value)
+                v, t, dv = expr_g(ctx, s.value)
             y = ctx.fresh(tgt.id)
             c2 = ctx.child(**{tgt.id: ("v", y, t)})
-            return f"(let {y} := {v} in {stmts(c2, rest, s)})"
+            return guarded(ctx, s, dv, f"(let {y} := {v} in {stmts(c2, rest, s)})")
         if isinstance(tgt, ast.Tuple) and all(isinstance(x, ast.Name) for x in tgt.elts):
             names = [x.id for x in tgt.elts]
-            if isinstance(s.value, ast.GeneratorExp):
+            dv = []
+            if is_raising_call(ctx, s.value) or (isinstance(s.value, ast.Call) and isinstance(s.value.func, ast.Name)
+                                                 and s.value.func.id in ctx.fns):
+                fn = ctx.fns[s.value.func.id]
+                rt = fn.ret
+                if not (isinstance(rt, tuple) and rt[0] == "T" and len(rt) - 1 == len(names)):
+                    refuse(ctx, s, "unpacking a non-tuple result")
+                y = ctx.fresh("r")
+                c2 = ctx.child(**{n: ("v", proj(y, i, len(names)), t) for i, (n, t) in enumerate(zip(names, rt[1:]))})
+                if fn.raises:
+                    if not ctx.raises:
+                        refuse(ctx, s, "raising call in a function declared total")
+                    return f"(bind {call_raising(ctx, s.value, fn)} (fun {y} => {stmts(c2, rest, s)}))"
+                return f"(let {y} := {call_total(ctx, s.value, fn)} in {stmts(c2, rest, s)})"
+            if isinstance(s.value, ast.GeneratorExp) and isinstance(s.value.generators[0].iter, ast.Call) \
+                    and isinstance(s.value.generators[0].iter.func, ast.Name) and s.value.generators[0].iter.func.id == "range":
+                g = s.value
+                it = g.generators[0].iter
+                if len(g.generators) != 1 or g.generators[0].ifs or not isinstance(g.generators[0].target, ast.Name) \
+                        or len(it.args) != 1 or not isinstance(it.args[0], ast.Constant) or it.args[0].value != len(names):
+                    refuse(ctx, s, "generator over range")
+                x = g.generators[0].target.id
+                vt = [expr_g(ctx.child(**{x: ("k", k)}), g.elt) for k in range(len(names))]
+                vals, types = [v for v, _, _ in vt], [t for _, t, _ in vt]
+                dv = [d for _, _, ds in vt for d in ds]
+            elif isinstance(s.value, ast.GeneratorExp):
                 g = s.value
                 if len(g.generators) != 1 or g.generators[0].ifs or not isinstance(g.generators[0].target, ast.Name) \
                         or not isinstance(g.generators[0].iter, ast.Tuple) or len(g.generators[0].iter.elts) != len(names):
@@ -339,8 +506,9 @@ def stmts(ctx: Ctx, body: list, node=None) -> str:
                 vals = [f"({fn_txt} {sv})" for sv, _ in srcs]
                 types = [body_t] * len(names)
             elif isinstance(s.value, ast.Tuple) and len(s.value.elts) == len(names):
-                vt = [expr(ctx, x) for x in s.value.elts]
-                vals, types = [v for v, _ in vt], [t for _, t in vt]
+                vt = [expr_g(ctx, x) for x in s.value.elts]
+                vals, types = [v for v, _, _ in vt], [t for _, t, _ in vt]
+                dv = [d for _, _, ds in vt for d in ds]
             else:
                 refuse(ctx, s, "tuple assignment")
             ys = [ctx.fresh(n) for n in names]
@@ -351,7 +519,7 @@ def stmts(ctx: Ctx, body: list, node=None) -> str:
             val = vals[0]
             for v in vals[1:]:
                 val = f"({val}, {v})"
-            return f"(let '{pat} := {val} in {stmts(c2, rest, s)})"
+            return guarded(ctx, s, dv, f"(let '{pat} := {val} in {stmts(c2, rest, s)})")
         refuse(ctx, s, "assignment target")
     if isinstance(s, ast.If):
         orelse = s.orelse
@@ -372,7 +540,7 @@ def stmts(ctx: Ctx, body: list, node=None) -> str:
         if nn is not None:
             var, coqv, is_none = nn
             y = ctx.fresh(var)
-            c_some = ctx.child(**{var: ("v", y, "Z")})
+            c_some = ctx.child(**{var: ("v", y, opt_base(ctx, var))})
             br_none = stmts(ctx, (s.body if is_none else orelse) + rest, s)
             br_some = stmts(c_some, (orelse if is_none else s.body) + rest, s)
             return f"(match {coqv} with None => {br_none} | Some {y} => {br_some} end)"
@@ -396,10 +564,10 @@ def stmts(ctx: Ctx, body: list, node=None) -> str:
             br_none = stmts(ctx, (s.body if is_none else orelse) + rest, s)
             br_some = stmts(c_some, (orelse if is_none else s.body) + rest, s)
             return f"(match {v} with None => {br_none} | Some {y} => {br_some} end)"
-        c, ct = expr(ctx, t)
+        c, ct, dv = expr_g(ctx, t)
         if ct != "B":
             refuse(ctx, s, "condition of non-bool type")
-        return f"(if {c} then {stmts(ctx, s.body + rest, s)} else {stmts(ctx, orelse + rest, s)})"
+        return guarded(ctx, s, dv, f"(if {c} then {stmts(ctx, s.body + rest, s)} else {stmts(ctx, orelse + rest, s)})")
     refuse(ctx, s, "statement")
 
 
@@ -415,9 +583,7 @@ def call_args(ctx, e, fn):
             out.append(v)
         else:
             v, t = expr(ctx, a)
-            if t != pt:
-                refuse(ctx, e, f"argument of type {t} for parameter of type {pt}")
-            out.append(v)
+            out.append(coerce(ctx, e, v, t, pt))
     return "(" + " ".join([fn.gname] + out) + ")"
 
 
@@ -476,8 +642,10 @@ def translate_function(src_path: Path, tree, item: dict, fns: dict) -> str:
         want = [n for n, _ in item["params"]]
         if got != want or node.args.vararg or node.args.kwarg or node.args.kwonlyargs:
             raise Refused(where, f"parameters are {got}, signature table says {want}")
+    reserved = {"res", "bind", "fst", "snd", "Ok", "Err", "guard", "mod", "at", "as", "in", "end", "fun", "match", "with"}
+    cname = {n: (n + "_p" if n in reserved else n) for n, _ in params}
     for n, t in params:
-        ctx.env[n] = ("v", n, t)
+        ctx.env[n] = ("v", cname[n], t)
     if "genexp" in item:
         gens = [g for g in ast.walk(node) if isinstance(g, ast.GeneratorExp)]
         gens.sort(key=lambda g: (g.lineno, g.col_offset))
@@ -495,7 +663,7 @@ def translate_function(src_path: Path, tree, item: dict, fns: dict) -> str:
         body = v
     else:
         body = stmts(ctx, node.body, node)
-    sig = " ".join(f"({n} : {tname(t)})" for n, t in params)
+    sig = " ".join(f"({cname[n]} : {tname(t)})" for n, t in params)
     rt = tname(item["ret"])
     if item.get("raises"):
         rt = f"res {rt}"
@@ -503,12 +671,20 @@ def translate_function(src_path: Path, tree, item: dict, fns: dict) -> str:
 
 
 PRELUDE = """(** GENERATED by tools/py2v from the current /repo sources on every run — do not edit. *)
-From Coq Require Import ZArith QArith List Bool.
+From Coq Require Import ZArith QArith Qround Qabs List Bool.
 From OG Require Import Base.Result Model.Roi.
 Open Scope Z_scope.
 
 (* int.bit_length *)
 Definition py_bit_length (x : Z) : Z := if x =? 0 then 0 else Z.log2 (Z.abs x) + 1.
+
+(* float helpers over exact rationals: strict comparison, int(x) (truncation towards zero),
+   math.fmod(x, 1) (sign of the dividend), min/max with Python's tie rule *)
+Definition Qltb (x y : Q) : bool := negb (Qle_bool y x).
+Definition py_trunc (x : Q) : Z := if Qle_bool 0 x then Qfloor x else Qceiling x.
+Definition py_fmod1 (x : Q) : Q := (x - inject_Z (py_trunc x))%Q.
+Definition py_minq (x y : Q) : Q := if Qltb y x then y else x.
+Definition py_maxq (x y : Q) : Q := if Qltb x y then y else x.
 
 """
 
